@@ -1,6 +1,7 @@
 package props
 
 import (
+	"time"
 	"bytes"
 	"context"
 	"errors"
@@ -119,6 +120,7 @@ type srvScanner struct {
 	rangeDone bool         // no row of the scan lies beyond this region
 	heartbeat int
 	delivered bool // the id was delivered to the client in a response
+	releasedAt time.Time
 }
 
 // scanModel implements gohbase.RPCClient for a scanner under test and is the
@@ -143,6 +145,7 @@ type scanModel struct {
 	// observations
 	multiRegion, fragmented, heartbeats, boundEqBoundary, earlyNoMore bool
 	emptyFirst           int
+	endedAt              time.Time
 	closeReqs, renewReqs                                              int
 }
 
@@ -223,7 +226,11 @@ func (m *scanModel) SendRPC(rpc hrpc.Call) (proto.Message, error) {
 	isClose := req.GetCloseScanner() && req.ScannerId != nil
 	if !isClose {
 		if m.ended {
-			m.problem("request after the scan ended: scanner_id=%v renew=%v", req.ScannerId != nil, req.GetRenew())
+			// (a lease renewal that was already on its way at the very instant the scan ended is the
+			// renewer goroutine losing a benign race; one that comes later is a renewer still running)
+			if !(req.GetRenew() && req.ScannerId != nil && !time.Now().After(m.endedAt)) {
+				m.problem("request after the scan ended: scanner_id=%v renew=%v", req.ScannerId != nil, req.GetRenew())
+			}
 			return nil, errors.New("model server: scan is over")
 		}
 		if !req.GetRenew() {
@@ -248,7 +255,10 @@ func (m *scanModel) SendRPC(rpc hrpc.Call) (proto.Message, error) {
 				m.closeReqs++
 				return &pb.ScanResponse{}, nil
 			}
-			m.problem("request on scanner %d which is already %s", sc.id, map[bool]string{true: "closed", false: "exhausted"}[sc.closed])
+			// (a renewal racing with the request that released the scanner at the same instant is benign)
+			if !(req.GetRenew() && !time.Now().After(sc.releasedAt)) {
+				m.problem("request on scanner %d which is already %s", sc.id, map[bool]string{true: "closed", false: "exhausted"}[sc.closed])
+			}
 			return nil, errors.New("org.apache.hadoop.hbase.UnknownScannerException")
 		}
 		if sc.region != ri {
@@ -257,6 +267,7 @@ func (m *scanModel) SendRPC(rpc hrpc.Call) (proto.Message, error) {
 		if isClose {
 			m.closeReqs++
 			sc.closed = true
+			sc.releasedAt = time.Now()
 			return &pb.ScanResponse{ScannerId: proto.Uint64(sc.id), MoreResults: proto.Bool(false)}, nil
 		}
 		if req.GetRenew() {
@@ -326,6 +337,7 @@ func (m *scanModel) SendRPC(rpc hrpc.Call) (proto.Message, error) {
 	resp := m.respond(sc, req)
 	if req.GetCloseScanner() {
 		sc.closed = true
+		sc.releasedAt = time.Now()
 	}
 	return resp, nil
 }
@@ -450,6 +462,7 @@ func (m *scanModel) respond(sc *srvScanner, req *pb.ScanRequest) *pb.ScanRespons
 	resp.MoreResultsInRegion = proto.Bool(inRegion)
 	if !inRegion {
 		sc.exhausted = true
+		sc.releasedAt = time.Now()
 	}
 	return resp
 }
@@ -472,6 +485,7 @@ func (m *scanModel) openScanners() []uint64 {
 func (m *scanModel) end() {
 	m.mu.Lock()
 	m.ended = true
+	m.endedAt = time.Now()
 	m.mu.Unlock()
 }
 
